@@ -14,7 +14,7 @@
 From Coq Require Import Reals.
 From Coquelicot Require Import Coquelicot.
 From MM Require Import Base.Num Model.Sample Model.Quantile Model.Kde Spec.Kde Proofs.Kde Proofs.KdeBw Proofs.KdeGroups.
-From MM Require RealSpec.KdeR Proofs.KdeR RealSpec.Normal Proofs.KdeQR Proofs.KdeCap.
+From MM Require RealSpec.KdeR Proofs.KdeR RealSpec.Normal Proofs.KdeQR Proofs.KdeCap Spec.Quantile Proofs.Quantile.
 From Coq Require Import Qreals Psatz.
 Local Open Scope Q_scope.
 
@@ -201,14 +201,25 @@ Print Assumptions C12_delta_kernel.
 (* ====================================================================== *)
 (* BandwidthSilverman = 1.06 s n^(-1/5) and BandwidthScott = 1.06 min(s, IQR/1.349) n^(-1/5), as
    10th powers: rule10 s2 n = 1.06^10 (s^2)^5 / n^2 (C12_Q2R_bridge_and_rules: that IS the
-   10th power of the formula), with the textbook variance var_def *)
-Theorem C12_bandwidth_rules : forall s : sample, s_ws s = None -> (2 <= length (s_xs s))%nat ->
-  (exists v : Q, bandwidth_silverman10 s = BwPow10 v /\
-                 v == rule10 (Stream.var_def (s_xs s)) (Qofnat (length (s_xs s)))) /\
-  (forall a b : Q, quantile s (3 # 4) = RVal a -> quantile s (1 # 4) = RVal b ->
-     exists v : Q, bandwidth_scott10 s = BwPow10 v /\
-       let r := (a - b) / (1349 # 1000) in
-       v == rule10 (Qminb (Stream.var_def (s_xs s)) (r * r)) (Qofnat (length (s_xs s)))).
+   10th power of the formula), with the textbook variance var_def; for a plain unweighted
+   sample the quartiles are the Hyndman-Fan type 8 quantiles of C10 and IQR >= 0 *)
+Theorem C12_bandwidth_rules :
+  (forall s : sample, s_ws s = None -> (2 <= length (s_xs s))%nat ->
+    (exists v : Q, bandwidth_silverman10 s = BwPow10 v /\
+                   v == rule10 (Stream.var_def (s_xs s)) (Qofnat (length (s_xs s)))) /\
+    (forall a b : Q, quantile s (3 # 4) = RVal a -> quantile s (1 # 4) = RVal b ->
+       exists v : Q, bandwidth_scott10 s = BwPow10 v /\
+         let r := (a - b) / (1349 # 1000) in
+         v == rule10 (Qminb (Stream.var_def (s_xs s)) (r * r)) (Qofnat (length (s_xs s))))) /\
+  (forall xs : list Q, (2 <= length xs)%nat ->
+    exists a b v : Q,
+      quantile (Proofs.Quantile.unsorted xs) (3 # 4) = RVal a /\
+      quantile (Proofs.Quantile.unsorted xs) (1 # 4) = RVal b /\
+      a == Spec.Quantile.hf_def third_f xs (3 # 4) /\ b == Spec.Quantile.hf_def third_f xs (1 # 4) /\
+      b <= a /\
+      bandwidth_scott10 (Proofs.Quantile.unsorted xs) = BwPow10 v /\
+      let r := (a - b) / (1349 # 1000) in
+      v == rule10 (Qminb (Stream.var_def xs) (r * r)) (Qofnat (length xs))).
 Proof. exact Proofs.KdeGroups.G_bandwidth_rules. Qed.
 Print Assumptions C12_bandwidth_rules.
 
